@@ -163,7 +163,11 @@ def run(res):
                 "plus three boundary numbers (6..65536, 2^47, 2^48-1 …, random 48-bit); non-trivial = observed in >= 2 "
                 "orders and with released secrets.  keys-adv: a real set-up channel advanced 4..7 holder commitments "
                 "through the handler (ValidateCommitmentTx2 with real counterparty signatures, RevokeCommitmentTx) at hsmd "
-                "protocol 4 / 5 / 6, restarts in between; at every state every API that hands out a per-commitment point "
+                "protocol 4 / 5 / 6, restarts in between, with the retries the signer accepts -- the same ValidateCommitmentTx(2) "
+                "again before the revocation, after it (the channel has moved on) and after a restart, as phase-1 "
+                "(transaction + PSBT witness scripts) and phase-2 message -- and EVERY `next_per_commitment_point` / "
+                "secret in any reply compared with the derivation for the number the protocol assigns to it (reply to "
+                "Validate(n): point n+1, below protocol 5 secret n-1; reply to Revoke(n): point n+2, secret n); at every state every API that hands out a per-commitment point "
                 "or secret (get_per_commitment_point, get_per_commitment_secret(_or_none), "
                 "revoke_previous_holder_commitment incl. replays of every old number, GetPerCommitmentPoint(2)Reply, "
                 "RevokeCommitmentTxReply and ValidateCommitmentTxReply incl. replays) is asked for every number in reach "
